@@ -308,3 +308,31 @@ Example C08_top_limit_needs_wf :
   <> norm_res LPy (separate_actions LPy false (trender (std_sigma (top_to_limit bad_q4) [CLimit]) (top_to_limit bad_q4))).
 Proof. destruct top_limit_needs_wf as [A [B [_ [_ C]]]]. split; [exact A|]. split; [exact B | exact C]. Qed.
 Print Assumptions C08_top_limit_needs_wf.
+
+(* ------------------------------------------------------------------ swapped sides in ON *)
+From RBQL Require Import ParserVars JoinVars JoinVars_Proofs.
+From Coq Require String.
+Import String.StringSyntax.
+
+(* resolve_join_variables (as after fix b7edec2 of finding D15): for every ON pair made of an input-side variable (a field
+   variable of the input table, or NR / aNR / a.NR) and a join-side variable (a field variable of the join table, or bNR / b.NR),
+   neither of them known to both tables, writing the pair in either order gives the same key component on each side - for any
+   list of pairs and any choice of which pairs are written swapped *)
+Theorem C08_join_sides_swap : forall (im jm : vmap) (pairs : list (str * str)) (swaps : list bool),
+  length swaps = length pairs ->
+  Forall (fun p : str * str => a_side im (fst p) = true /\ b_side jm (snd p) = true /\ in_map (fst p) jm = false /\ is_b_nr (fst p) = false
+                   /\ in_map (snd p) im = false /\ is_a_nr (snd p) = false) pairs ->
+  resolve_join_variables im jm (map (fun bp : bool * (str * str) => if fst bp then (snd (snd bp), fst (snd bp)) else snd bp) (combine swaps pairs))
+  = resolve_join_variables im jm pairs.
+Proof. exact resolve_join_swap. Qed.
+Print Assumptions C08_join_sides_swap.
+
+(* non-vacuity, on the inputs of finding D15: b1 == NR and bNR == aNR resolve like NR == b1 and aNR == bNR *)
+Example C08_join_sides_nonvacuous :
+  let im := [($"a1", (true, 0%N))] in let jm := [($"b1", (true, 0%N))] in
+  resolve_join_variables im jm [($"b1", $"NR"); ($"bNR", $"aNR"); ($"b1", $"a1")]
+  = JOk ([None; None; Some 0%N], [Some 0%N; None; Some 0%N])
+  /\ resolve_join_variables im jm [($"NR", $"b1"); ($"aNR", $"bNR"); ($"a1", $"b1")]
+  = JOk ([None; None; Some 0%N], [Some 0%N; None; Some 0%N]).
+Proof. vm_compute. split; reflexivity. Qed.
+Print Assumptions C08_join_sides_nonvacuous.
